@@ -240,6 +240,71 @@ theorem train_total_same_folder (a b : Bool) (f : Flags) (rounds : List Bool) :
   · intro r; cases a <;> cases b <;> cases r <;> flag_cases f
   · flag_cases f
 
+/-! ## The key is a parameter: configurations with and without an API key
+
+`traceGK k v f rounds`, `k : KeyState` (`absent` = `api_key` is `""` / `None` / the field or the
+whole `wandb` section is missing). -/
+
+theorem traceGK_present (v : Version) (f : Flags) (rounds : List Bool) :
+    traceGK .present v f rounds = traceG v f rounds := withKey_present _
+
+/-- **What a (repaired) run writes does not depend on whether the configuration carries a key**:
+same files, same order, same configurations in them. -/
+theorem run_key_independent (k : KeyState) (f : Flags) (rounds : List Bool) :
+    traceGK k .repaired f rounds = traceG .repaired f rounds := by
+  cases k
+  · exact withKey_present _
+  · exact map_shape_of_all_blank _ (all_blank_traceG f rounds)
+
+/-- In particular `initial_config.yaml` holds the *supplied* configuration (key blank) whether or
+not a key was present — at every crash point after the first write, for every configuration. -/
+theorem initial_config_key_independent (k k' : KeyState) (f : Flags) (rounds : List Bool) (n : Nat) :
+    fsAt (traceGK k .repaired f rounds) n .initialCfg = fsAt (traceGK k' .repaired f rounds) n .initialCfg := by
+  rw [run_key_independent, run_key_independent]
+
+theorem initial_config_is_supplied_any_key (k : KeyState) (f : Flags) (rounds : List Bool) (n : Nat)
+    (hn : 1 ≤ n) :
+    fsAt (traceGK k .repaired f rounds) n .initialCfg = some (cfg .supplied true false) := by
+  rw [run_key_independent]
+  have hsplit : traceG .repaired f rounds
+      = .write .initialCfg (cfg .supplied true false) :: (traceG .repaired f rounds).tail := by
+    simp [traceG, initPhase, blankInit]
+  rw [hsplit]
+  refine fsAt_head_untouched _ _ _ (forall_mem_traceG_tail _ f rounds ?_ ?_ ?_ ?_ ?_) n hn
+  · flag_cases f
+  · flag_cases f
+  · flag_cases f
+  · intro b; cases b <;> flag_cases f
+  · flag_cases f
+
+/-- **Full artefacts**, with or without a key in the configuration. -/
+theorem artefacts_complete_any_key (k : KeyState) (f : Flags) (rs : List Bool) :
+    let fs := fsAfter (traceGK k .repaired f (true :: rs))
+    fs .initialCfg = some (cfg .supplied true false) ∧
+    fs .trainingCfg = some (cfg .used true f.wandb) ∧
+    fs .bestCkpt = (if f.ckpt then some (cfg .used true false) else none) ∧
+    fs .lastCkpt = (if f.ckpt ∧ f.saveLast then some (cfg .used true false) else none) ∧
+    fs .chunksCfg = (if f.fw = .npChunks then some (cfg .prepared true false) else none) ∧
+    fs .trainChunks = (if f.fw = .npChunks ∧ ¬ f.deleteChunks then some .data else none) ∧
+    fs .valChunks = (if f.fw = .npChunks ∧ ¬ f.deleteChunks then some .data else none) := by
+  rw [run_key_independent]
+  exact artefacts_complete_any_epochs f rs
+
+/-- **No key on disk** for either key state (trivially so without a key, but stated for the record). -/
+theorem no_key_at_any_crash_point_any_key (k : KeyState) (f : Flags) (rounds : List Bool) (n : Nat)
+    (p : Path) (c : Content) (hc : fsAt (traceGK k .repaired f rounds) n p = some c) : c.keyBlank = true := by
+  rw [run_key_independent] at hc
+  exact no_key_at_any_crash_point_any_epochs f rounds n p c hc
+
+/-- Regression record: the originally pinned tree was right whenever there was no key to leak
+(and no `run_id` raise) — F-C19 needed a key. -/
+theorem asIs_without_key_eq_repaired (f : Flags) (rounds : List Bool) (h : runIdRaises .asIs f = false) :
+    traceGK .absent .asIs f rounds = traceG .repaired f rounds :=
+  (repair_changes_only_key_bits f rounds h).symm
+
+example : fsAt (traceGK .absent .repaired ⟨.bottomup, .torchDataset, false, false, false, true, false⟩ [true]) 2
+    .initialCfg = some (cfg .supplied true false) := by decide
+
 /-! ## Low-memory fallback: the in-memory cache does not fit, the trainer switches itself to chunks
 
 `traceLM .repaired f rounds`: a fresh run on a host where `psutil` reports too little memory.
